@@ -2,20 +2,26 @@
 // World: 1-4 socket bufferevents, each over its own AF_UNIX socketpair whose peer end is owned by the harness
 // (a large backlog is queued towards every bufferevent at start, every bufferevent starts with a large output
 // buffer, and the peer ends are drained at every backend wait, so traffic is always available in both directions).
-// Per-bufferevent ev_token_bucket_cfg (from a pool of 3), one rate-limit group with min_share, max_single_read/write,
-// manual (also negative) decrements, joining/leaving the group, enable/disable.  Harness-owned virtual clock.
+// Per-bufferevent ev_token_bucket_cfg (from a pool of 3), 1-3 rate-limit groups (each on a cfg of the pool, each with its own
+// min_share and manual decrements), max_single_read/write, manual (also negative) decrements, enable/disable, and every documented
+// membership change: joining a group, leaving it (bufferevent_remove_from_rate_limit_group or add_to_rate_limit_group(bev, NULL)),
+// re-adding to the same group, and moving DIRECTLY from one group to another (add_to_rate_limit_group while a member of another
+// group, in whatever state - exhausted/suspended or not - the old and the new group happen to be).  Harness-owned virtual clock.
 // Bytes are counted per real read/readv/write/writev call on the bufferevents' fds (sim_set_io_hook) and attributed
 // to the tick in which the call happened (tick index computed from the wall clock exactly as documented: ms / tick ms).
 // Oracle:
 //   (a) per bufferevent and direction, for every window of k consecutive ticks: bytes <= burst + k*rate (+ credits given
 //       by negative manual decrements in the window or the tick before it);
-//   (b) same for the sum over the group's members, + one min_share quantum (documented deficit spending);
+//   (b) same, per group, for the sum over the bufferevents that were members of that group when the call happened, + one min_share
+//       quantum (documented deficit spending);
 //   (c) every single read/write call moves <= max_single_read/write (default 16384);
 //   (d) progress: a direction that is enabled, has data available, whose bucket (recomputed for the current tick with
 //       ev_token_bucket_update_ on a copy) is > 0 and whose group bucket is >= min_share, moves bytes within one tick
-//       (+25% +1ms) unless the harness touched the configuration in between; for group members any member's bytes count
-//       (the shared budget is handed out in random order, an individual member may lose the draw).
-// Preconditions respected: a bufferevent leaves the group before it is freed; cfgs and the group outlive their users;
+//       (+25% +1ms) unless the harness touched the configuration in between; for group members any bytes of a member of the same
+//       group count (the shared budget is handed out in random order, an individual member may lose the draw);
+//   (e) "a bufferevent may belong to no more than one rate-limit group at a time": after every membership op each group's member
+//       count equals the model's.
+// Preconditions respected: a bufferevent leaves its group before it is freed; cfgs and the groups outlive their users;
 // decrement_*_limit only on bufferevents with a per-bufferevent cfg (asserted by the library).
 #include "verif.h"
 #include "sim.h"
@@ -33,7 +39,8 @@ extern "C" {
 }
 
 namespace {
-const int MAXB = 4, NCFG = 3;
+const int MAXB = 4, NCFG = 3, MAXG = 3;
+const char *K_NULLGRP = "ubsan:member-access-within-null-pointer-of-typ@bufferevent_ratelim.c";   // add_to_rate_limit_group(member, NULL) dereferences NULL
 const char *DN[] = {"read", "write"};
 struct CfgM { struct ev_token_bucket_cfg *cfg = nullptr; int64_t rate[2], burst[2]; };
 struct Acct {                       // one accounting epoch of one bucket and direction
@@ -43,18 +50,19 @@ struct Acct {                       // one accounting epoch of one bucket and di
 };
 struct MBev {
   struct bufferevent *bev = nullptr; int fd[2] = {-1, -1}; int idx = 0;
-  int cfg = -1; bool in_group = false; short enabled = 0;
+  int cfg = -1; int grp = -1; short enabled = 0;    // grp: index of the group it is a member of, -1 none
   int64_t max_single[2] = {16384, 16384};
   int64_t backlog = 0;              // bytes queued towards the bufferevent and not yet read by it
   Acct a[2];
   int64_t elig_since[2] = {-1, -1};
   int64_t moved[2] = {0, 0};
 };
+struct MGrp { struct bufferevent_rate_limit_group *grp = nullptr; int idx = 0, cfg = 0; Acct ga[2]; int64_t min_share = 64; };
 struct World {
   Src *s; struct event_base *base = nullptr; int nb = 0; MBev b[MAXB]; CfgM c[NCFG];
-  struct bufferevent_rate_limit_group *grp = nullptr; int gcfg = 0; Acct ga[2]; int64_t min_share = 64;
+  int ng = 0; MGrp g[MAXG];
   int64_t tick_us = 0; int64_t run_end = 0; int run_waits = 0; bool aborted = false, teardown = false;
-  int refills = 0; bool ex_single_r = false, ex_single_w = false, ex_stall = false;
+  int refills = 0; bool ex_single_r = false, ex_single_w = false, ex_stall = false, ex_nullgrp = false;
 };
 World *W;
 static char BLOB[65536];
@@ -84,8 +92,12 @@ void acct_check(Acct &a, const char *who, int idx, int dir) {
 void bev_epoch(MBev &m) {     // (re)start per-bufferevent accounting after a cfg change
   for (int d = 0; d < 2; d++) { acct_check(m.a[d], "bev", m.idx, d); if (m.cfg >= 0) acct_start(m.a[d], W->c[m.cfg].rate[d], W->c[m.cfg].burst[d], 0); else m.a[d] = Acct(); }
 }
-void grp_epoch() {
-  for (int d = 0; d < 2; d++) { acct_check(W->ga[d], "group", 0, d); acct_start(W->ga[d], W->c[W->gcfg].rate[d], W->c[W->gcfg].burst[d], W->min_share); }
+void grp_epoch(MGrp &G) {
+  for (int d = 0; d < 2; d++) { acct_check(G.ga[d], "group", G.idx, d); acct_start(G.ga[d], W->c[G.cfg].rate[d], W->c[G.cfg].burst[d], G.min_share); }
+}
+void check_membership(const char *after) {   // (e)
+  for (int k = 0; k < W->ng; k++) { int n = 0; for (int i = 0; i < W->nb; i++) if (W->b[i].bev && W->b[i].grp == k) n++;
+    CHECK(W->g[k].grp->n_members == n, "C22/group-membership-count", "after %s: group%d has %d members, the history says %d", after, k, W->g[k].grp->n_members, n); }
 }
 void touch_all() { for (int i = 0; i < W->nb; i++) W->b[i].elig_since[0] = W->b[i].elig_since[1] = -1; }
 
@@ -100,12 +112,12 @@ void io_hook(const struct sim_io_rec *r, void *) {
     if (dir == 0) m.backlog -= n;
     m.moved[dir] += n; m.elig_since[dir] = -1;
     // the group budget is shared and handed out in random order: bytes moved by any member count as the group's progress
-    if (m.in_group) for (int j = 0; j < W->nb; j++) if (W->b[j].in_group) W->b[j].elig_since[dir] = -1;
+    if (m.grp >= 0) for (int j = 0; j < W->nb; j++) if (W->b[j].grp == m.grp) W->b[j].elig_since[dir] = -1;
     bool skip = m.cfg >= 0 && (dir == 0 ? W->ex_single_r : W->ex_single_w); if (skip && n > m.max_single[dir]) verif_known_skipped(dir == 0 ? "C22/max-single-read-exceeded" : "C22/max-single-write-exceeded");
     if (!skip)
-      CHECK(n <= m.max_single[dir], dir == 0 ? "C22/max-single-read-exceeded" : "C22/max-single-write-exceeded", "bev%d: one %s call moved %lld bytes, max_single_%s is %lld (cfg=%d group=%d)", i, DN[dir], (long long)n, DN[dir], (long long)m.max_single[dir], m.cfg, m.in_group);
+      CHECK(n <= m.max_single[dir], dir == 0 ? "C22/max-single-read-exceeded" : "C22/max-single-write-exceeded", "bev%d: one %s call moved %lld bytes, max_single_%s is %lld (cfg=%d group=%d)", i, DN[dir], (long long)n, DN[dir], (long long)m.max_single[dir], m.cfg, m.grp);
     if (m.a[dir].on) m.a[dir].bytes[t] += n;
-    if (m.in_group && W->ga[dir].on) W->ga[dir].bytes[t] += n;
+    if (m.grp >= 0 && W->g[m.grp].ga[dir].on) W->g[m.grp].ga[dir].bytes[t] += n;
   }
 }
 
@@ -147,11 +159,11 @@ void sample_progress() {
         if (W->ex_stall) { verif_known_skipped(dir == 0 ? "C22/read-refill-delayed" : "C22/write-refill-delayed"); continue; }
         char key[64]; snprintf(key, sizeof key, "C22/%s-refill-delayed", DN[dir]);
         verif_fail(key, "bev%d %s: enabled, data available, bucket positive (group bucket >= min_share) since %lld (now %lld, tick %lld us) but nothing moved for more than 1.25 ticks (own refill timer pushed back?); flags read=0x%x write=0x%x cfg=%d group=%d",
-                   i, DN[dir], (long long)m.elig_since[dir], (long long)now, (long long)W->tick_us, p->read_suspended, p->write_suspended, m.cfg, m.in_group);
+                   i, DN[dir], (long long)m.elig_since[dir], (long long)now, (long long)W->tick_us, p->read_suspended, p->write_suspended, m.cfg, m.grp);
       }
       char key[64]; snprintf(key, sizeof key, "C22/%s-stalled", DN[dir]);
       verif_fail(key, "bev%d %s: enabled, data available, bucket positive and group bucket >= min_share since %lld (now %lld, tick %lld us) but no bytes moved; suspended flags read=0x%x write=0x%x cfg=%d group=%d",
-                 i, DN[dir], (long long)m.elig_since[dir], (long long)now, (long long)W->tick_us, p->read_suspended, p->write_suspended, m.cfg, m.in_group);
+                 i, DN[dir], (long long)m.elig_since[dir], (long long)now, (long long)W->tick_us, p->read_suspended, p->write_suspended, m.cfg, m.grp);
     }
   }
 }
@@ -201,7 +213,7 @@ extern "C" int LLVMFuzzerTestOneInput(const uint8_t *data, size_t size) {
   verif_case_begin("C22");
   Src s(data, size);
   World w; W = &w; w.s = &s;
-  w.ex_single_w = verif_known("C22/max-single-write-exceeded"); w.ex_single_r = verif_known("C22/max-single-read-exceeded"); w.ex_stall = verif_known("C22/read-refill-delayed") || verif_known("C22/write-refill-delayed");
+  w.ex_single_w = verif_known("C22/max-single-write-exceeded"); w.ex_single_r = verif_known("C22/max-single-read-exceeded"); w.ex_stall = verif_known("C22/read-refill-delayed") || verif_known("C22/write-refill-delayed"); w.ex_nullgrp = verif_known(K_NULLGRP);
   int64_t live0 = sim_mem_live_blocks;
   w.tick_us = TICKS[s.below(4)];
   sim_clock_enable(SIM_START_US + s.below(1000) * 997);
@@ -215,13 +227,15 @@ extern "C" int LLVMFuzzerTestOneInput(const uint8_t *data, size_t size) {
     CHECK(c.cfg != nullptr, "C22/cfg-new-failed", "rate %lld burst %lld", (long long)c.rate[0], (long long)c.burst[0]);
     TR("cfg%d read %lld/%lld write %lld/%lld tick %lld us", k, (long long)c.rate[0], (long long)c.burst[0], (long long)c.rate[1], (long long)c.burst[1], (long long)w.tick_us);
   }
-  w.gcfg = s.below(NCFG);
-  w.grp = bufferevent_rate_limit_group_new(w.base, w.c[w.gcfg].cfg);
-  CHECK(w.grp != nullptr, "C22/group-new-failed", "NULL");
-  // the library seeds the group's member-order RNG with the group's address: reseed for a reproducible case
-  evutil_weakrand_seed_(&w.grp->weakrand_seed, 20220922u);
-  w.min_share = w.grp->min_share; grp_epoch();
-  TR("group cfg%d min_share=%lld start=%lld tick=%lld", w.gcfg, (long long)w.min_share, (long long)sim_now_us(), (long long)cur_tick());
+  w.ng = 1 + s.below(MAXG);
+  for (int k = 0; k < w.ng; k++) { MGrp &G = w.g[k]; G.idx = k; G.cfg = s.below(NCFG);
+    G.grp = bufferevent_rate_limit_group_new(w.base, w.c[G.cfg].cfg);
+    CHECK(G.grp != nullptr, "C22/group-new-failed", "NULL");
+    // the library seeds the group's member-order RNG with the group's address: reseed for a reproducible case
+    evutil_weakrand_seed_(&G.grp->weakrand_seed, 20220922u + k);
+    G.min_share = G.grp->min_share; grp_epoch(G);
+    TR("group%d cfg%d min_share=%lld start=%lld tick=%lld", k, G.cfg, (long long)G.min_share, (long long)sim_now_us(), (long long)cur_tick());
+  }
   w.nb = 1 + s.below(MAXB);
   sim_set_io_hook(io_hook, nullptr);
   for (int i = 0; i < w.nb; i++) { MBev &m = w.b[i]; m.idx = i;
@@ -234,9 +248,9 @@ extern "C" int LLVMFuzzerTestOneInput(const uint8_t *data, size_t size) {
     // every bufferevent is limited from the start (an unlimited one would swallow the whole backlog at once)
     int mode = 1 + s.below(3);   // 1 cfg, 2 group, 3 both
     if (mode & 1) { m.cfg = s.below(NCFG); int r = bufferevent_set_rate_limit(m.bev, w.c[m.cfg].cfg); CHECK(r == 0, "C22/set-rate-limit-failed", "r=%d", r); }
-    if (mode & 2) { int r = bufferevent_add_to_rate_limit_group(m.bev, w.grp); CHECK(r == 0, "C22/add-to-group-failed", "r=%d", r); m.in_group = true; }
+    if (mode & 2) { int k = s.below(w.ng); int r = bufferevent_add_to_rate_limit_group(m.bev, w.g[k].grp); CHECK(r == 0, "C22/add-to-group-failed", "r=%d", r); m.grp = k; }
     bev_epoch(m);
-    TR("bev%d cfg=%d group=%d backlog=%lld", i, m.cfg, m.in_group, (long long)m.backlog);
+    TR("bev%d cfg=%d group=%d backlog=%lld", i, m.cfg, m.grp, (long long)m.backlog);
   }
 
   for (int step = 0; step < 40 && !w.aborted && w.nb > 0; step++) {
@@ -248,14 +262,31 @@ extern "C" int LLVMFuzzerTestOneInput(const uint8_t *data, size_t size) {
       case 1: { short ev = (short[]){EV_READ, EV_WRITE, EV_READ | EV_WRITE}[s.below(3)]; bufferevent_enable(m.bev, ev); m.enabled |= ev; TR("enable bev%d 0x%x", m.idx, ev); break; }
       case 2: { short ev = (short[]){EV_READ, EV_WRITE, EV_READ | EV_WRITE}[s.below(3)]; bufferevent_disable(m.bev, ev); m.enabled &= ~ev; TR("disable bev%d 0x%x", m.idx, ev); break; }
       case 3: { int k = (int)s.below(NCFG + 1) - 1;
-        if (k < 0 && !m.in_group) break;       // keep every bufferevent limited
+        if (k < 0 && m.grp < 0) break;       // keep every bufferevent limited
         int r = bufferevent_set_rate_limit(m.bev, k < 0 ? nullptr : w.c[k].cfg); TR("set_rate_limit bev%d cfg%d -> %d", m.idx, k, r);
         CHECK(r == 0, "C22/set-rate-limit-failed", "r=%d", r);
         if (k != m.cfg) { m.cfg = k; bev_epoch(m); }
         break; }
-      case 4: {
-        if (m.in_group) { if (m.cfg < 0) break; int r = bufferevent_remove_from_rate_limit_group(m.bev); TR("leave group bev%d -> %d", m.idx, r); CHECK(r == 0, "C22/remove-from-group-failed", "r=%d", r); m.in_group = false; }
-        else { int r = bufferevent_add_to_rate_limit_group(m.bev, w.grp); TR("join group bev%d -> %d", m.idx, r); CHECK(r == 0, "C22/add-to-group-failed", "r=%d", r); m.in_group = true; }
+      case 4: {   // membership: 0 = remove_from_rate_limit_group, 1 = add_to_rate_limit_group(bev, NULL) (documented as "remove from its current group"),
+                  // 2+k = add_to_rate_limit_group(bev, group k): first join, no-op re-add, or a direct move out of another group
+        int t = s.below(w.ng + 2);
+        if (t < 2) {
+          if (m.grp >= 0 && m.cfg < 0) break;  // keep every bufferevent limited
+          if (t == 1 && m.grp >= 0 && w.ex_nullgrp) { verif_known_skipped(K_NULLGRP); t = 0; }
+          int r = t == 0 ? bufferevent_remove_from_rate_limit_group(m.bev) : bufferevent_add_to_rate_limit_group(m.bev, nullptr);
+          TR("leave group%d bev%d (%s) -> %d", m.grp, m.idx, t == 0 ? "remove_from" : "add_to NULL", r); CHECK(r == 0, "C22/remove-from-group-failed", "r=%d", r);
+          if (m.grp >= 0) verif_class("left_group");
+          m.grp = -1;
+        } else {
+          int k = t - 2;
+          if (m.grp >= 0 && m.grp != k) { struct bufferevent_rate_limit_group *o = w.g[m.grp].grp, *n = w.g[k].grp;
+            verif_class("direct_group_move");
+            if ((o->read_suspended && !n->read_suspended) || (o->write_suspended && !n->write_suspended)) verif_class("moved_from_suspended_to_unsuspended_group");
+            if ((!o->read_suspended && n->read_suspended) || (!o->write_suspended && n->write_suspended)) verif_class("moved_from_unsuspended_to_suspended_group"); }
+          int r = bufferevent_add_to_rate_limit_group(m.bev, w.g[k].grp); TR("add bev%d to group%d (was in %d) -> %d", m.idx, k, m.grp, r); CHECK(r == 0, "C22/add-to-group-failed", "r=%d", r);
+          m.grp = k;
+        }
+        check_membership("a membership op");
         break; }
       case 5: { int dir = s.below(2); int64_t v = SINGLES[s.below(7)];
         int r = dir == 0 ? bufferevent_set_max_single_read(m.bev, v) : bufferevent_set_max_single_write(m.bev, v); TR("set_max_single_%s bev%d %lld -> %d", DN[dir], m.idx, (long long)v, r);
@@ -269,17 +300,17 @@ extern "C" int LLVMFuzzerTestOneInput(const uint8_t *data, size_t size) {
         CHECK(r == 0, "C22/decrement-failed", "r=%d", r);
         if (d < 0) m.a[dir].credit[cur_tick()] += -d;
         break; }
-      case 7: { int dir = s.below(2); int64_t d = DECRS[s.below(10)];
-        int r = dir == 0 ? bufferevent_rate_limit_group_decrement_read(w.grp, d) : bufferevent_rate_limit_group_decrement_write(w.grp, d); TR("group_decrement_%s %lld -> %d", DN[dir], (long long)d, r);
+      case 7: { MGrp &G = w.g[s.below(w.ng)]; int dir = s.below(2); int64_t d = DECRS[s.below(10)];
+        int r = dir == 0 ? bufferevent_rate_limit_group_decrement_read(G.grp, d) : bufferevent_rate_limit_group_decrement_write(G.grp, d); TR("group%d decrement_%s %lld -> %d", G.idx, DN[dir], (long long)d, r);
         CHECK(r == 0, "C22/group-decrement-failed", "r=%d", r);
-        if (d < 0) w.ga[dir].credit[cur_tick()] += -d;
+        if (d < 0) G.ga[dir].credit[cur_tick()] += -d;
         break; }
-      case 8: { int64_t v = (int64_t[]){1, 2, 16, 64, 300, 5000}[s.below(6)];   // 0 is not generated: a zero quantum lets the per-member share round down to 0 bytes (see props/C22.json)
-        int r = bufferevent_rate_limit_group_set_min_share(w.grp, v); TR("set_min_share %lld -> %d (effective %lld)", (long long)v, r, (long long)w.grp->min_share);
+      case 8: { MGrp &G = w.g[s.below(w.ng)]; int64_t v = (int64_t[]){1, 2, 16, 64, 300, 5000}[s.below(6)];   // 0 is not generated: a zero quantum lets the per-member share round down to 0 bytes (see props/C22.json)
+        int r = bufferevent_rate_limit_group_set_min_share(G.grp, v); TR("group%d set_min_share %lld -> %d (effective %lld)", G.idx, (long long)v, r, (long long)G.grp->min_share);
         CHECK(r == 0, "C22/set-min-share-failed", "r=%d", r);
-        int64_t eff = v; for (int d = 0; d < 2; d++) if (eff > w.c[w.gcfg].rate[d]) eff = w.c[w.gcfg].rate[d];
-        CHECK(w.grp->min_share == eff, "C22/min-share-not-clipped", "min_share %lld, expected min(%lld, group rates) = %lld", (long long)w.grp->min_share, (long long)v, (long long)eff);
-        w.min_share = eff; for (int d = 0; d < 2; d++) if (w.ga[d].slack < eff) w.ga[d].slack = eff;
+        int64_t eff = v; for (int d = 0; d < 2; d++) if (eff > w.c[G.cfg].rate[d]) eff = w.c[G.cfg].rate[d];
+        CHECK(G.grp->min_share == eff, "C22/min-share-not-clipped", "min_share %lld, expected min(%lld, group rates) = %lld", (long long)G.grp->min_share, (long long)v, (long long)eff);
+        G.min_share = eff; for (int d = 0; d < 2; d++) if (G.ga[d].slack < eff) G.ga[d].slack = eff;
         break; }
       case 9: {
         int64_t d = w.tick_us * (int64_t[]){1, 1, 2, 3, 5, 8}[s.below(6)] / (s.flag() ? 2 : 1);
@@ -296,18 +327,18 @@ extern "C" int LLVMFuzzerTestOneInput(const uint8_t *data, size_t size) {
   int nontrivial = 0;
   for (int i = 0; i < w.nb; i++) for (int d = 0; d < 2; d++) { acct_check(w.b[i].a[d], "bev", i, d);
     Acct &a = w.b[i].a[d]; if (a.on) { int full = 0; for (auto &kv : a.bytes) if (kv.second >= a.rate) full++; if (full >= 3) nontrivial = 1; } }
-  for (int d = 0; d < 2; d++) { acct_check(w.ga[d], "group", 0, d);
-    Acct &a = w.ga[d]; int full = 0; for (auto &kv : a.bytes) if (kv.second >= a.rate) full++; if (full >= 3) { nontrivial = 1; verif_class("group_bucket_cycled"); } }
+  for (int k = 0; k < w.ng; k++) for (int d = 0; d < 2; d++) { acct_check(w.g[k].ga[d], "group", k, d);
+    Acct &a = w.g[k].ga[d]; int full = 0; for (auto &kv : a.bytes) if (kv.second >= a.rate) full++; if (full >= 3) { nontrivial = 1; verif_class("group_bucket_cycled"); } }
   if (nontrivial) verif_class("bucket_exhausted_and_refilled_2x");
   if (w.aborted) verif_class("aborted");
   int64_t tot = 0; for (int i = 0; i < w.nb; i++) tot += w.b[i].moved[0] + w.b[i].moved[1]; if (tot) verif_class("bytes_moved");
   w.teardown = true;
   for (int i = 0; i < w.nb; i++) { MBev &m = w.b[i]; if (!m.bev) continue;
     bufferevent_setcb(m.bev, nullptr, nullptr, nullptr, nullptr); bufferevent_disable(m.bev, EV_READ | EV_WRITE);
-    if (m.in_group) bufferevent_remove_from_rate_limit_group(m.bev);
+    if (m.grp >= 0) bufferevent_remove_from_rate_limit_group(m.bev);
     bufferevent_free(m.bev); m.bev = nullptr; }
   event_base_loop(w.base, EVLOOP_NONBLOCK);
-  bufferevent_rate_limit_group_free(w.grp);
+  for (int k = 0; k < w.ng; k++) bufferevent_rate_limit_group_free(w.g[k].grp);
   event_base_free(w.base);
   for (int k = 0; k < NCFG; k++) ev_token_bucket_cfg_free(w.c[k].cfg);
   for (int i = 0; i < MAXB; i++) { if (w.b[i].fd[0] >= 0) close(w.b[i].fd[0]); if (w.b[i].fd[1] >= 0) close(w.b[i].fd[1]); }
